@@ -85,7 +85,7 @@ def execute(hv, cases, runs_for, screen=None, nworkers=None, env=None):
     redo = [(k, i) for k, (c, runs, results, done) in enumerate(out)
             for i, r in enumerate(results) if r is not None and "hung" in r and not runs[i].get("expectHang")]
     confirmed = set()
-    for k, i in redo[:60]:
+    for k, i in redo[:8]:
         c, runs, results, done = out[k]
         if k in confirmed:
             continue
@@ -109,6 +109,9 @@ def claim_of(run, result):
             return "aborted", 0, "died:SIGABRT"         # the allocation-failure abort (C17)
         return "crashed", 0, "died:" + result["died"]
     if "hung" in result:
+        if run.get("mode") == "limited" and run.get("budget", 0) < UNLIMITED:
+            # limited execution must come back whatever the program does (C07)
+            return "crashed", 0, "limited-run-with-finite-budget-%d-did-not-return" % run.get("budget", 0)
         # still running when the watchdog fired: only a canonically divergent run explains that
         return "running", 1, "hung"
     ret = result["ret"]
